@@ -348,8 +348,11 @@ impl Tokenizer {
                     if byte_level.use_regex {
                         Box::new(pre_tokenizers::Split::gpt2())
                     } else {
+                        // `(?s)` so that `.` also matches line terminators.
+                        // Otherwise newlines would match nothing and be
+                        // dropped from the input.
                         let noop_split = pre_tokenizers::SplitOptions {
-                            pattern: r".*",
+                            pattern: r"(?s).*",
                             invert: true,
                             ..Default::default()
                         };
